@@ -94,11 +94,12 @@ def run(tier):
         n = 4
         for i in range(n):
             tasks.append((y, K, S, ['1040'], fed[i::n], 'federal' if i == 0 else None))
-        tasks.append((y, K, S, ['1040', 'nc_d-400'], nc, 'nc'))
+        for i in range(3):
+            tasks.append((y, K, S, ['1040', 'nc_d-400'], nc[i::3], 'nc' if i == 0 else None))
     results = common.pmap(task, tasks)
     mp = {}
     for r in results:
-        mp[r['year']] = (r.get('model_lines', 0), r.get('model_paths', 0))
+        mp[r['year']] = max(mp.get(r['year'], (0, 0)), (r.get('model_lines', 0), r.get('model_paths', 0)))
         for nm, res, dt, desc in r['obl']:
             c.obligation(nm, res, dt, sample={'obligation': nm, 'query': desc, 'result': res})
         done = set()
